@@ -1,0 +1,14 @@
+//go:build verif
+
+package matchrule
+
+// Contracts for the verification harness under /verif (comment-only file).
+//
+// C13: match rules (mask's match_rules, ...) compare a field value with the
+// configured values by prefix / suffix / containment.  Checked panic-free for
+// every value, under what Prepare establishes (0 <= maxValueSize).
+
+//@ func (*Rule).match
+//@   requires r.maxValueSize >= 0
+//@   loop 1 invariant true
+//@   loop 2 invariant true
